@@ -321,7 +321,7 @@ pub fn run(ctx: &Ctx, out: &mut Out) {
     }
     // (1a) bounded-exhaustive: all sequences over 8 ops x 3 addresses up to length L, limits {1,2,3}
     let pool3 = addr_pool(3);
-    let maxlen = 5;
+    let maxlen = if ctx.thorough { 6 } else { 5 };
     let letters = (NOPS * 3) as u64;
     let total: u64 = (1..=maxlen).map(|l| letters.pow(l)).sum();
     let mut i = ctx.shard;
@@ -359,7 +359,7 @@ pub fn run(ctx: &Ctx, out: &mut Out) {
     out.exhaustive = Some(done);
     out.extra.insert("exhaustive_scope".into(), json!({"ops": NOPS, "addresses": 3, "max_len": maxlen, "limits": [1,2,3], "total_sequences": total, "completed": done}));
     // (1b) random long sequences over pools of 1..50 addresses, with per-op checking
-    for k in 0..ctx.share(1_600, 16_000) {
+    for k in 0..ctx.share(1_600, 64_000) {
         let naddr = rng.range(1, 50) as usize;
         let pool = addr_pool(naddr);
         let len = if k % 8 == 0 { 10_000 } else { rng.range(1, 400) as usize };
@@ -384,7 +384,7 @@ pub fn run(ctx: &Ctx, out: &mut Out) {
     }
     // (2) worker split / snapshot points / queue / reporter
     let csvdir = ctx.scratch.join("c17csv");
-    for k in 0..ctx.share(8_000, 64_000) {
+    for k in 0..ctx.share(8_000, 400_000) {
         let naddr = rng.range(1, 50) as usize;
         let pool = addr_pool(naddr);
         let len = rng.range(1, 600) as usize;
